@@ -199,16 +199,8 @@ fn c04_identity_owned_data() {
     let bytes: [u8; 3] = kani::any();
     let n: usize = kani::any();
     kani::assume(n <= 3);
-    let mut v = Vec::with_capacity(3);
-    if n > 0 {
-        v.push(bytes[0]);
-    }
-    if n > 1 {
-        v.push(bytes[1]);
-    }
-    if n > 2 {
-        v.push(bytes[2]);
-    }
+    let mut v = vec![bytes[0], bytes[1], bytes[2]];
+    v.truncate(n);
     let data = match Data::try_new(v) {
         Ok(d) => d,
         Err(_) => panic!("try_new rejected 3 bytes"),
@@ -298,7 +290,7 @@ fn c05_distinct_messages_distinct_frames() {
     let same_header = f1.address() == f2.address() && f1.message_type() == f2.message_type() && f1.data().len() == f2.data().len();
     if !both_data {
         // at least one is a table message (0 or 1 data bytes): equal frames force equal messages
-        let same_first = f1.data().len() == 0 || f1.data()[0] == f2.data()[0];
+        let same_first = same_header && (f1.data().len() == 0 || f1.data()[0] == f2.data()[0]);
         if same_header && same_first && f1.data().len() <= 1 {
             match (a1, a2) {
                 (Abs::SendData(o1, _, n1), Abs::SendData(o2, _, n2)) => assert!(o1 == o2 && n1 == n2),
